@@ -236,14 +236,13 @@ static void vf_act(int act, const char *text, long leng, int start, int lineno, 
 	int seg;
 	vf_step();
 	(void)atbol;
-	/* A rule whose action is '|' falls through into the next rule's arm.  For some such rules (those with
-	 * trailing context) flex emits the rule set-up, and with it the pre-action, in both arms, so the hook runs
-	 * twice for one match.  The token stream is not affected; the repeat is recognised (same rule and length, and the
-	 * action body - every harness action starts with vf_body() - has not run in between) and counted, not compared. */
+	/* A rule whose action is '|' falls through into the next rule's arm; the rule set-up, and with it the pre-action
+	 * (YY_USER_ACTION), belongs to the arm it falls into only.  A second pre-action for the same match (same rule and
+	 * length, no action body - every harness action starts with vf_body() - in between) means the hook ran twice. */
 	if (vf_pre_pending && vf_prev_act == act && vf_prev_leng == leng && vf_prev_calls == vf_lex_calls && vf_act_ops == 0
 	    && act <= VF_NRULES && (vf_rules[act].flags & 2)) {
 		vf_n_dup_preaction++;
-		return;
+		vf_mismatch("pre-action ran twice for one match of a rule with a '|' action", act, text, leng, start, lineno);
 	}
 	vf_pre_pending = 1;
 	vf_prev_act = act; vf_prev_text = text; vf_prev_leng = leng; vf_prev_reads = vf_n_reads; vf_prev_calls = vf_lex_calls;
